@@ -56,15 +56,26 @@ func VerifC05_RealCandidates() {
 		}
 		return nil, nil
 	})
-	candidates = []*x509.Certificate{client, ca} // index 0 = the client's own key, 1 = the CA's key
-	signer := verifrt.Choose(3)                  // 0 client's own key, 1 CA, 2 stranger
+	// a responder certificate configured as trusted that has nothing to do with this certificate's issuer
+	// (another CA's responder: other name, other key identifier, other serial)
+	tr := &x509.Certificate{SerialNumber: big.NewInt(99991), PublicKeyAlgorithm: x509.RSA, Extensions: ski(0x33)}
+	subjectOf[tr], issuerOf[tr] = "CN=Other Responder", "CN=Other CA"
+	withTrusted := verifrt.Choose(2) == 1
+	candidates = []*x509.Certificate{client, ca, tr} // index 0 = the client's own key, 1 = the CA's key, 2 = the unrelated trusted responder
+	signer := verifrt.Choose(4)                      // 0 client's own key, 1 CA, 2 stranger, 3 the unrelated trusted responder
 	r := &modelResp{wellFormed: true, successful: true, nResponses: 1, serial: clientSerial, signedBy: byIssuer, signerIdx: signer, status: verifrt.Choose(2)}
 	if signer == 2 {
 		r.signedBy = byStranger
 	}
+	if signer == 3 {
+		r.signerIdx = 2
+	}
 	resps = append(resps, r)
-	httpScript["http://ocsp|0"], httpScript["http://ocsp|1"] = 1, 1
+	httpScript["http://ocsp|0"], httpScript["http://ocsp|1"], httpScript["http://ocsp|2"] = 1, 1, 1
 	c := newOCSPChecker(false, 0)
+	if withTrusted {
+		c.ocspConfig.TrustedResponderCerts = []*x509.Certificate{tr}
+	}
 	if verifrt.Param("debug", 0) == 1 {
 		chains := core.NewCertificateChains([][]*x509.Certificate{{client, ca}}, nil)
 		cs, e := core.FindCertificateIssuerCandidates(rdn("CN=CA"), &client.Extensions, x509.RSA, chains)
@@ -81,7 +92,7 @@ func VerifC05_RealCandidates() {
 		verifrt.Assert(used, "an answer signed by the issuing CA is used")
 	} else {
 		verifrt.Reach("not-ca-signed")
-		verifrt.Assert(!used, "an answer signed with the client's own key or by a stranger is treated as no answer")
+		verifrt.Assert(!used, "an answer signed with the client's own key, by a stranger, or by a trusted responder of ANOTHER issuer is treated as no answer")
 		verifrt.Assert(len(cacheAdds) == 0, "and is not cached")
 	}
 	var _ *big.Int
